@@ -95,10 +95,13 @@ def defaults(h):
 
 def run_cycle(h, it2, node, env, name):
     """Execute the body of a `while True` task loop once; obligation `name`: control comes back to the loop head."""
-    from pyvc.interp import _Break, _Return
+    from pyvc.interp import _Break, _Return, _Continue
     from pyvc.values import PyExc
     try:
-        it2.exec_block(node.body, env)
+        try:
+            it2.exec_block(node.body, env)
+        except _Continue:
+            pass            # `continue` is a way back to the loop head
     except (PyExc, _Break, _Return) as e:
         what = e.value.cls.name if isinstance(e, PyExc) else type(e).__name__.strip("_").lower()
         h.oblige(name, False, kind="loop-preserve", detail=f"the loop body is left by {what}")
@@ -181,7 +184,11 @@ def install_deadline_loop(h, w, F, T, ev):
             cm.when = L + T
         ev.flag = h.bool("flag_k")
         w0 = state.get("waits", 0)
-        it2.exec_block(node.body, env)
+        from pyvc.interp import _Continue
+        try:
+            it2.exec_block(node.body, env)
+        except _Continue:
+            pass
         h.oblige("every turn of the response loop waits for the response event (it never pushes the deadline, nor spins, without a response)",
                  state.get("waits", 0) == w0 + 1, kind="loop-preserve")
         t_r = aio.now(it2)  # a response was processed
